@@ -19,6 +19,7 @@ import shutil
 import subprocess
 import sys
 import tempfile
+import threading
 import time
 
 VERIF = os.path.dirname(os.path.dirname(os.path.abspath(__file__)))
@@ -95,6 +96,7 @@ class Check:
         self.driver = None
         self.repo_copy = None
         self.findings = load_findings()
+        self.lock = threading.Lock()
 
     # ------------------------------------------------------------ scratch / build
     def path(self, *p):
@@ -219,10 +221,11 @@ class Check:
             raise Infra("model-level run %s violates %s (specification error):\n%s" % (tag or module, r.violated, r.out[-3000:]))
         if not r.no_error:
             raise Infra("model-level run %s did not complete:\n%s" % (tag or module, r.out[-3000:]))
-        self.cov["states"] += r.distinct
-        self.cov["transitions"] += r.generated
-        self.cov["model_runs"].append({"run": tag or module, "distinct_states": r.distinct,
-                                       "states_generated": r.generated, "wall_s": round(r.wall, 1)})
+        with self.lock:
+            self.cov["states"] += r.distinct
+            self.cov["transitions"] += r.generated
+            self.cov["model_runs"].append({"run": tag or module, "distinct_states": r.distinct,
+                                           "states_generated": r.generated, "wall_s": round(r.wall, 1)})
         return r
 
     def negative_twin(self, module, cfg, tag, expect=None, **kw):
@@ -259,6 +262,23 @@ class Check:
         self.cov["transitions"] += r.generated
         self.cov["model_runs"].append({"run": "trace:" + tag, "events": res["total"], "wall_s": round(r.wall, 1)})
         return res["bad"], res
+
+    def parallel(self, thunks, max_workers=4):
+        """Run independent steps (TLC runs, driver runs) concurrently; the first exception is re-raised."""
+        import concurrent.futures
+        with concurrent.futures.ThreadPoolExecutor(max_workers=max_workers) as ex:
+            futs = [ex.submit(t) for t in thunks]
+            res = []
+            err = None
+            for f in futs:
+                try:
+                    res.append(f.result())
+                except Exception as e:  # noqa: BLE001
+                    err = err or e
+                    res.append(None)
+            if err:
+                raise err
+            return res
 
     # ------------------------------------------------------------ verdicts
     def violation(self, what, replay):
